@@ -117,13 +117,18 @@ func cmdCheck(args []string) int {
 	var unsupported []string
 	notes := map[string]bool{}
 	funcs := map[string]bool{}
+	swept := map[string]bool{}
 	for _, fl := range sel {
 		fr := E.Encode(fl.Func, fl.Level)
 		if fr.Unsupported != "" {
 			unsupported = append(unsupported, fmt.Sprintf("%s [%s]: %s", fl.Func, fr.Level, fr.Unsupported))
 			continue
 		}
-		funcs[fl.Func] = true
+		if len(fl.Sel.Kinds) > 0 && E.effectiveContract(fl.Func) == nil {
+			swept[fl.Func] = true // annotation-free sweep of a function that has no contract
+		} else {
+			funcs[fl.Func] = true
+		}
 		if fr.Enc != nil && fr.Enc.usesCnt {
 			usesCnt = true
 		}
@@ -378,6 +383,7 @@ func cmdCheck(args []string) int {
 		"trusted_base":           trustedBase,
 		"functions_under_contract": fnames,
 		"functions":              len(fnames),
+		"functions_swept_without_contract": len(swept),
 		"by_backend":             bySolver,
 		"solver_seconds":         round3(solverSecs),
 		"samples":                samples,
